@@ -230,10 +230,11 @@ class Sym:
             return ("unknown", "resume")
         return ("unknown", k)
 
-    def _fmt(self, body, term, depth):
-        """std::fmt::format(Arguments::new(template, &[Argument::new_*(&x)...]))"""
+    def _fmt(self, body, term, depth, argi=0):
+        """std::fmt::format(Arguments::new(template, &[Argument::new_*(&x)...])); with argi=1 also the Arguments handed
+        to Write::write_fmt(w, args)"""
         prog = self.prog
-        leaves = prog.resolve_op(body, term.args[0], IDENT)
+        leaves = prog.resolve_op(body, term.args[argi], IDENT)
         if len(leaves) != 1:
             return None
         a = next(iter(leaves))
